@@ -628,6 +628,39 @@ def unkspans(ctx):
            "prefix lengths run over 1..=min(length, run)" if oklo and okhi else
            "prefix lengths run over %s..%s%s: the property asks for 1..=min(length, run)"
            % (show(lo), "=" if kind == "incl" else "", show(hi)[:70]))
+    # stopping at the end of the sentence: a prefix candidate may be skipped on account of the
+    # sentence length only when it would end *beyond* the last character (end - len >= 1); a
+    # candidate ending exactly at the end of the sentence is a candidate like any other
+    nlen = 0
+    for b in sorted(fa.live_blocks()):
+        t = fa.term(b)
+        if t["k"] != "switch" or pb not in fa.reachable(b):
+            continue
+        e = S.operand(t["op"])
+        if not (e[0] == "binop" and e[1] in ("Lt", "Le", "Gt", "Ge") and "len_char(" in show(e)):
+            continue
+        f_t, t_t = bool_switch_targets(t)
+        # which edge still reaches the prefix candidate without coming back through this test?
+        keep_true = pb in fa.reachable(t_t, avoid={b})
+        keep_false = pb in fa.reachable(f_t, avoid={b})
+        if keep_true == keep_false:
+            continue
+        (lt, lc), (rt, rc) = _lin(e[2]), _lin(e[3])
+        len_left = "len_char(" in lt
+        opn = e[1] if not keep_true else {"Lt": "Ge", "Le": "Gt", "Gt": "Le", "Ge": "Lt"}[e[1]]
+        # on the skipping edge:  L + lc OPN R + rc ; want  end - len >= 1
+        if len_left:     # len + lc OPN end + rc  ->  end - len  OPN'  lc - rc
+            k = (lc - rc + 1) if opn == "Lt" else (lc - rc) if opn == "Le" else None
+        else:            # end + lc OPN len + rc  ->  end - len OPN rc - lc
+            k = (rc - lc + 1) if opn == "Gt" else (rc - lc) if opn == "Ge" else None
+        nlen += 1
+        okl = k is not None and k >= 1
+        ctx.ob("UNKSPAN", "prefix-skipped-only-beyond-the-sentence-end|%d" % nlen, okl, fa.loc(b),
+               "a prefix candidate is skipped for length only when it would end beyond the sentence"
+               if okl else
+               "a prefix candidate is skipped when end - len_char >= %s: a candidate that ends "
+               "exactly at the end of the sentence is dropped, so the last word of a sentence gets "
+               "fewer candidates than the same word followed by more text" % k)
 
 
 def charrange(ctx):
